@@ -45,6 +45,11 @@ def canon(x, h, depth=0):
         for k, v in x.items():
             canon(k, h, depth + 1)
             canon(v, h, depth + 1)
+    elif isinstance(x, (set, frozenset)):
+        # a set is its elements, not their iteration order (which depends on the insertion history)
+        h.update(b"Z" + str(len(x)).encode())
+        for d in sorted(digest(v) for v in x):
+            h.update(d)
     elif isinstance(x, bool):
         h.update(b"b1" if x else b"b0")
     elif isinstance(x, float):
